@@ -322,7 +322,7 @@ func runScript(s Script, attempt int) outcome {
 		if s.Parent == "fail" {
 			want = "oops\n"
 		}
-		if !bytes.Contains(out, []byte(want)) {
+		if !deadline && !bytes.Contains(out, []byte(want)) { // (a timed-out script may not have got as far as echo)
 			return outcome{fail: lib.Failf("output-lost", "stdout %q lacks %q\nscript:\n%s", out, want, s.text())}
 		}
 	case "deadline":
